@@ -6,7 +6,7 @@ LEVEL = 'exploration'
 CONFIGS = [('p-entailment', ''), ('system-z', ''), ('system-w', 'rc2'), ('system-w', 'z3'), ('lex_inf', 'rc2'), ('lex_inf', 'z3')]
 WEAKLY = True
 WANT = 'weak_or_strong'
-RULE = ('weakly consistent bases (no finite layer; finite layers + non-empty infinity layer; strongly consistent ones for strict/extended agreement) x 8 queries x all operators/back-ends with weakly=True; judged by M2+M3 restricted to feasible worlds and finite layers; any exception is a violation. Non-trivial = some feasible world satisfies A&B and some A&!B; distinct by hash(base, query, configuration).')
+RULE = ('weakly consistent bases (no finite layer; finite layers + non-empty infinity layer; strongly consistent ones for strict/extended agreement) x 8 queries x all operators/back-ends with weakly=True; judged by M2+M3 restricted to feasible worlds and finite layers; any exception is a violation; every 20th case is a LARGE strongly consistent base (corpus / unions, 10-60 atoms) on which the extended answers of the real code must equal its strict answers. Non-trivial = some feasible world satisfies A&B and some A&!B; distinct by hash(base, query, configuration).')
 ASSUMPTIONS = ['worlds are enumerated: bases of <= 6 atoms (incl. query atoms outside the signature), <= 8 conditionals, formula depth <= 3', 'reference semantics vf/refmodel.py is the definition quoted in the property (self-tested on textbook instances at start-up)']
 TRUSTED = []
 FLOOR = {'quick': 300, 'thorough': 3000}
@@ -14,6 +14,8 @@ BUDGET = {'quick': 100, 'thorough': 1500}
 N = {'quick': 900, 'thorough': 10000}
 FAMILIES = [('weak', 70)]
 selftest = opcommon.selftest_birds
+HARD_TIMEOUT = 400
+SOFT_TIMEOUT = 300
 
 
 def cases(tier, seed):
@@ -25,9 +27,60 @@ def cases(tier, seed):
             if i % 100 < share:
                 fam = name
                 break
-        out.append({'prop': ID, 'seed': seed, 'idx': i, 'family': fam})
+        out.append({'prop': ID, 'seed': seed, 'idx': i, 'family': fam, 'large': i % 20 == 7, 'tier': tier})
+    out.sort(key=lambda c: not c['large'])
     return out
 
 
+def run_large(case):
+    """strongly consistent bases of any size: the extended answers must coincide with the strict ones
+    (differential, the real code against itself; no world enumeration)"""
+    from .. import gen, corpus, impl, fml
+    from .opcommon import h
+    rng = gen.rng_for(case['seed'], ID, case['idx'])
+    res = {'evals': 0, 'nontrivial': [], 'violations': [], 'inconclusive': [], 'counters': {}}
+    if rng.random() < 0.5:
+        files = corpus.random_large(20 if case.get('tier') == 'quick' else 60)
+        a, c, i, path = files[rng.randrange(len(files))]
+        src = path.split('/examples/')[-1]
+        _, sig, conds = corpus.load(path)
+    else:
+        sig, conds = corpus.union_base(rng, parts=rng.randint(3, 6), want='strong')
+        src = 'union'
+    qs = corpus.derived_queries(rng, sig, conds, 5)
+    bdesc = {'source': src, 'atoms': len(sig), 'conditionals': len(conds)}
+    for (system, p) in CONFIGS:
+        cname = impl.cfg_name(system, p)
+        try:
+            strict = impl.results(impl.ask(impl.mk_bb(sig, conds), system, p, impl.mk_queries(qs), weakly=False))
+        except AssertionError:
+            res['counters']['large_base_not_strongly_consistent'] = 1
+            return res
+        except Exception as e:
+            res['inconclusive'].append('strict run raised %s' % type(e).__name__)
+            continue
+        try:
+            ext = impl.results(impl.ask(impl.mk_bb(sig, conds), system, p, impl.mk_queries(qs), weakly=True))
+        except Exception as e:
+            if type(e).__name__ == 'SoftTimeout':
+                raise
+            res['violations'].append({'sig': '%s:extended:exception:%s:large-strongly-consistent-base' % (cname, type(e).__name__),
+                                      'detail': {'base': bdesc, 'error': str(e)[:200]}})
+            continue
+        for qi, q in enumerate(qs):
+            res['evals'] += 1
+            res['counters']['large_strict_vs_extended_rows'] = res['counters'].get('large_strict_vs_extended_rows', 0) + 1
+            if strict[qi]:
+                res['nontrivial'].append(h(bdesc, fml.cond_text(*q), cname))
+            if strict[qi] != ext[qi]:
+                res['violations'].append({
+                    'sig': '%s:extended-differs-from-strict-on-strongly-consistent-base(ext=%s,strict=%s)' % (cname, ext[qi], strict[qi]),
+                    'detail': {'base': bdesc, 'query': fml.cond_text(*q)}})
+    res['sample'] = {'base': bdesc, 'kind': 'large strict-vs-extended differential', 'queries': [fml.cond_text(*q) for q in qs[:3]]}
+    return res
+
+
 def run_case(case):
+    if case.get('large'):
+        return run_large(case)
     return opcommon.run_operator_case(case, ID, CONFIGS, WEAKLY, WANT, nq=8)
